@@ -977,6 +977,17 @@ class Interp:
                 return callee.fn(*args, **kwargs)
             if isinstance(callee, BoundMethod):
                 return self.invoke(callee.func, args, kwargs, callee.obj)
+            if isinstance(callee, str) and callee in ("<type list>", "<type tuple>", "<type dict>", "<type set>") and len(args) <= 1 and not kwargs:
+                # `type(value)(<items>)`: a container of the same builtin type built from concrete items
+                ctor = {"<type list>": list, "<type tuple>": tuple, "<type dict>": dict, "<type set>": set}[callee]
+                if not args:
+                    return ctor()
+                v = self.force(args[0])
+                if isinstance(v, (list, tuple)) and (ctor is not dict or all(isinstance(x, tuple) and len(x) == 2 and _hashable_key(x[0]) for x in v)) \
+                        and (ctor is not set or all(isinstance(x, (str, int)) for x in v)):
+                    return ctor(v)
+                if isinstance(v, dict) and ctor is dict:
+                    return dict(v)
             return TOP
         if isinstance(fn, ast.Name):
             n = fn.id
